@@ -145,6 +145,11 @@ structure FS where
 structure Env where
   /-- does the configuration directory exist (argument = `legacy`) -/
   has : Bool → Bool
+  /-- fault injection: `os.remove` of this location inside write_to_disk(delete=True) fails with an errno other than
+      ENOENT (EPERM, EACCES, EROFS, EBUSY: a root-owned marker in a sticky directory, a read-only file system …).
+      The code consults no uid: the same for root and for an unprivileged user.  An ENOENT (somebody else removed the
+      file first) is ignored by the code and is the same as a successful removal. -/
+  denied : Loc → Bool
 
 def FS.set (fs : FS) (l : Loc) (n : Node) : FS :=
   { fs with node := fun l' => if l' = l then n else fs.node l' }
@@ -166,7 +171,9 @@ def wtdDelete (E : Env) (fs : FS) (l : Loc) : FS × Bool :=
   else match fs.node l with
     | .absent => (fs, true)                       -- not lexists
     | .dir => (fs, false)                         -- os.remove(directory): EISDIR, re-raised
-    | _ => (fs.set l .absent, true)               -- file or symlink: unlinked, not followed
+    | _ =>
+      if E.denied l then (fs, false)              -- any errno but ENOENT is re-raised (105-111): nothing removed
+      else (fs.set l .absent, true)               -- file or symlink: unlinked, not followed
 
 /-- `write_to_disk(f, content=c)`: `open(f, 'wb')` follows a symlink -/
 def wtdWrite (E : Env) (fs : FS) (l : Loc) (c : Str) : FS × Bool :=
